@@ -22,6 +22,7 @@ import RegexVerif.Props.C10Parser
 import RegexVerif.Lemmas.VM
 import RegexVerif.Lemmas.Compose
 import RegexVerif.Lemmas.StackTyping
+import RegexVerif.Lemmas.StackTypingStep
 
 namespace RegexVerif.Props.C10
 open RegexVerif RegexVerif.VM RegexVerif.Code RegexVerif.Lemmas.VM
@@ -211,5 +212,61 @@ example : Lemmas.StackTyping.untypedDemo.wf = true ∧ potOk Lemmas.StackTyping.
      | .error _ => false) = true := by decide
 
 end Emitted
+
+/-! ------------------------------------------------------------------------------------------------
+### The grouping-stack typing is a guarantee (slice-typing)
+
+`Lemmas/StackTypingSound.lean`, `StackTypingCases.lean`, `StackTypingStep.lean`: an invariant over `step` that adds to
+the frame invariant above — the grouping stack has, at every instruction boundary, a refined type below the one the
+typing assigns there (text positions in `[0, len]`, marks in `[-1, len]`, the two slots of a `Setjump` holding exactly
+the crawl depth and the backtracking depth at which it ran); the backtracking stack is a chain in which every frame
+knows, through its saved code position and the typing there, the stack type its Back / Back2 case will find and the
+type and crawl depth it leaves to the frame below.
+------------------------------------------------------------------------------------------------ -/
+
+section TypingSound
+open RegexVerif.Lemmas.StackTyping RegexVerif.Lemmas.StackTypingSound
+
+/-- the only fault that is neither structural nor excluded by the typing -/
+theorem only_capRange (f : Fault) (h1 : f.structural = false) (h2 : disc f = false) : f = .capRange := by
+  cases f <;> first | rfl | (exact absurd h1 (by decide)) | (exact absurd h2 (by decide))
+
+/-- **(A) Soundness of the typing, Prop-level.**  A well-formed program with ANY grouping-stack typing `a`
+    (`Lemmas.StackTyping.Typing`: `[]` at position 0, closed and consistent under the transfer function `flow`): for every
+    text, start position in the text, `\G` origin, oracle set and number of iterations, the attempt starts and its run
+    never ends in `stackUnderflow`, `tracktoRange`, `textposRange`, `crawlUnderflow` nor in any structural fault — the
+    only fault left is `capRange` (a backreference reading a captured interval that is not inside the text). -/
+theorem typing_sound (p : Prog) (h : p.wf = true) (bs : List Nat) (hb : p.boundaries = some bs)
+    (a : StackTyping.Assign) (hty : Typing p bs a)
+    (env : Env) (pos : Int) (h0 : 0 ≤ pos) (hn : pos ≤ env.len) (fuel : Nat) :
+    ∃ s0, init p pos = .ok s0 ∧ ∀ f, (run p env fuel s0).1 = .fault f → f = .capRange := by
+  obtain ⟨bs', hwf⟩ := wf_spec h
+  have e : bs' = bs := by have := hwf.bnd; rw [hb] at this; cases this; rfl
+  subst e
+  obtain ⟨s0, hi, hinv⟩ := tinit_inv (env := env) (a := a) hwf pos h0 hn
+  refine ⟨s0, hi, fun f hf => ?_⟩
+  obtain ⟨h1, h2⟩ := trun_ok hwf hty fuel s0 hinv f hf
+  exact only_capRange f h1 h2
+
+/-- **(A) Soundness of the evaluated check.**  `StackTyping.typed p = true` (what leg W evaluates on every compiled
+    program) and `p.wf = true`: no run of any attempt ends in a fault other than `capRange`.
+    `typed_no_discipline_fault` of the task statement is this theorem; it is stronger (it also excludes
+    `crawlUnderflow`). -/
+theorem typed_no_discipline_fault (p : Prog) (h : p.wf = true) (ht : StackTyping.typed p = true)
+    (env : Env) (pos : Int) (h0 : 0 ≤ pos) (hn : pos ≤ env.len) (fuel : Nat) :
+    ∃ s0, init p pos = .ok s0 ∧ ∀ f, (run p env fuel s0).1 = .fault f → f = .capRange := by
+  obtain ⟨bs, hb, hty⟩ := typed_spec ht
+  exact typing_sound p h bs hb _ hty env pos h0 hn fuel
+
+/-- non-vacuity: `demo` (`(?:ab?)*c`) and the program of `(a)|b\1` are well-formed and typed — the theorem applies
+    to them on any input —, and the hypothesis `typed` cannot be dropped: `untypedDemo` (`Lazybranch 3; Getmark; Stop`)
+    is `wf`, not typed, and its attempt ends in `stackUnderflow` (example above) -/
+example : ∃ s0, init demo 0 = .ok s0 ∧ ∀ f, (run demo demoEnv 1000 s0).1 = .fault f → f = .capRange :=
+  typed_no_discipline_fault demo (by decide) (by decide) demoEnv 0 (by decide) (by decide) 1000
+example : ∃ s0, init (Writer.emit Lemmas.Compose.info2 Lemmas.Compose.tree2) 1 = .ok s0 ∧
+    ∀ f, (run (Writer.emit Lemmas.Compose.info2 Lemmas.Compose.tree2) demoEnv 1000 s0).1 = .fault f → f = .capRange :=
+  typed_no_discipline_fault _ (by decide) (by decide) demoEnv 1 (by decide) (by decide) 1000
+
+end TypingSound
 
 end RegexVerif.Props.C10
